@@ -144,11 +144,12 @@ func execC11(x *X, scAny any) {
 	failed := 0
 	var firstTwo []string
 	for _, rec := range w.calls {
-		if !rec.returned || rec.err == nil || rec.startedAfterClose || rec.ctxKind != "" || rec.kind == "clone-request" {
+		if !rec.returned || rec.err == nil || rec.ctxKind != "" {
 			continue
 		}
-		if w.closeSeq > 0 && rec.endSeq > w.closeSeq {
-			continue // Close was called before this call had returned: it may fail for that reason
+		if rec.kind != "clone-request" && (rec.startedAfterClose || (w.closeSeq > 0 && rec.endSeq > w.closeSeq)) {
+			continue // Close of this client was called before the call had returned: it may fail for that reason
+			// (a clone is not closed by its parent's Close)
 		}
 		failed++
 		if len(firstTwo) < 3 {
